@@ -33,12 +33,26 @@ theorem bodyClear_reset_live (l : ReqLive) :
                  writeQueue := {} } := by
   simp [bodyClear, btst, Cq.reset]
 
-/-- request_reset(): every `ReqLive` field has its initial value afterwards, whatever the state was -/
-theorem requestReset_live (e : SrvEnv) (s : ReqSt) :
+/-- every plugin_ctx slot in use belongs to a module whose handle_request_reset hook clears it -/
+def SlotsOk (e : SrvEnv) (l : List (Nat × PCtx)) : Prop := ∀ p ∈ l, p.1 ∈ e.resetHooks
+
+theorem SlotsOk.filter_nil {e : SrvEnv} {l : List (Nat × PCtx)} (h : SlotsOk e l) :
+    l.filter (fun p => !e.resetHooks.contains p.1) = [] := by
+  apply List.filter_eq_nil_iff.mpr
+  intro p hp
+  simp [h p hp]
+
+theorem SlotsOk.nil (e : SrvEnv) : SlotsOk e [] := fun _ h => by simp at h
+
+/-- request_reset(): every `ReqLive` field has its initial value afterwards, whatever the state was,
+    provided every module that uses its plugin_ctx slot clears it in its reset hook -/
+theorem requestReset_live (e : SrvEnv) (s : ReqSt) (hs : SlotsOk e s.pluginCtx) :
     (requestReset hdrIds e s).toReqLive = (ReqSt.init e).toReqLive := by
+  have hf : ∀ (a : Nat) (b : PCtx), (a, b) ∈ s.pluginCtx → a ∈ e.resetHooks := fun a b hab => hs (a, b) hab
   unfold requestReset responseReset
   by_cases hptr : s.physPathPtr = true <;>
     simp [hptr, ReqSt.onLive, ReqSt.onCore, ReqCore.onLive, pluginsReset, hreset, bodyClear, btst, Cq.reset, ReqSt.init]
+  all_goals exact hf
 
 /-- request_reset_ex() restores the `ReqKept` fields (and leaves the others alone, up to
     target / pathinfo which request_reset() has cleared already) -/
@@ -53,15 +67,15 @@ theorem requestResetEx_core (e : SrvEnv) (s : ReqSt) (h : s.toReqLive = (ReqSt.i
   · simp [requestResetEx, ReqSt.init]
 
 /-- **request_reset() + request_reset_ex() restore every core field**, whatever the state was -/
-theorem reset_core (e : SrvEnv) (s : ReqSt) :
+theorem reset_core (e : SrvEnv) (s : ReqSt) (hs : SlotsOk e s.pluginCtx) :
     (requestResetEx (requestReset hdrIds e s)).toReqCore = (ReqSt.init e).toReqCore :=
-  requestResetEx_core e _ (requestReset_live e s)
+  requestResetEx_core e _ (requestReset_live e s hs)
 
-theorem requestRelease_core (e : SrvEnv) (s : ReqSt) :
+theorem requestRelease_core (e : SrvEnv) (s : ReqSt) (hs : SlotsOk e s.pluginCtx) :
     (requestRelease hdrIds e s).toReqCore = (ReqSt.init e).toReqCore := by
   unfold requestRelease
   simp only []
-  have := reset_core e { s with readQueue := s.readQueue.reset }
+  have := reset_core e { s with readQueue := s.readQueue.reset } hs
   simpa using this
 
 /-! ### error_handler_saved_status is not changed before http_response_has_error_handler() looks at it -/
@@ -85,8 +99,13 @@ theorem requestRelease_core (e : SrvEnv) (s : ReqSt) :
   all_goals simp
 @[simp] theorem setenvUriClean_ehs (s : ReqLive) : (setenvUriClean s).errorHandlerSavedStatus = s.errorHandlerSavedStatus := by
   unfold setenvUriClean; split <;> simp [pctxSet]
+@[simp] theorem rqstUnset_ehs (s : ReqLive) (id k) : (rqstUnset s id k).errorHandlerSavedStatus = s.errorHandlerSavedStatus := by
+  unfold rqstUnset; split <;> rfl
+@[simp] theorem sinkHandle_ehs (site) (s : ReqLive) : (sinkHandle site s).errorHandlerSavedStatus = s.errorHandlerSavedStatus := by
+  simp [sinkHandle]
 @[simp] theorem httpResponseConfig_ehs (site) (s : ReqCore) :
-    (httpResponseConfig site s).errorHandlerSavedStatus = s.errorHandlerSavedStatus := rfl
+    (httpResponseConfig site s).errorHandlerSavedStatus = s.errorHandlerSavedStatus := by
+  unfold httpResponseConfig; simp only []; split <;> simp [ReqCore.onLive]
 @[simp] theorem storeError_ehs (s : ReqLive) (a b c) : (storeError s a b c).errorHandlerSavedStatus = s.errorHandlerSavedStatus := rfl
 @[simp] theorem storeParsed_ehs (s : ReqCore) (a b c d f g h) :
     (storeParsed s a b c d f g h).errorHandlerSavedStatus = s.errorHandlerSavedStatus := rfl
@@ -173,6 +192,114 @@ theorem prepared_err_live (site : Site) (c1 c2 : ReqCore) (h : c1.toReqLive = c2
 theorem respondC_err_live (site : Site) (m : Int) (c1 c2 : ReqCore) (h : c1.toReqLive = c2.toReqLive)
     (hs : c1.httpStatus > 200) : (respondC site m c1).toReqLive = (respondC site m c2).toReqLive := by
   rw [respondC_live, respondC_live, prepared_err_live site c1 c2 h hs]
+
+/-! ### the plugin_ctx slots the response path uses belong to modules with a reset hook -/
+
+@[simp] theorem respSet_pctx (s : ReqLive) (id k v) : (respSet s id k v).pluginCtx = s.pluginCtx := rfl
+@[simp] theorem respUnset_pctx (s : ReqLive) (id k) : (respUnset s id k).pluginCtx = s.pluginCtx := by
+  unfold respUnset; split <;> rfl
+@[simp] theorem respAppend_pctx (s : ReqLive) (id k v) : (respAppend s id k v).pluginCtx = s.pluginCtx := by
+  unfold respAppend; split <;> rfl
+@[simp] theorem respInsert_pctx (s : ReqLive) (id k v) : (respInsert s id k v).pluginCtx = s.pluginCtx := by
+  unfold respInsert; split <;> rfl
+@[simp] theorem rqstUnset_pctx (s : ReqLive) (id k) : (rqstUnset s id k).pluginCtx = s.pluginCtx := by
+  unfold rqstUnset; split <;> rfl
+@[simp] theorem bodyClear_pctx (s : ReqLive) (p) : (bodyClear hdrIds s p).pluginCtx = s.pluginCtx := by
+  unfold bodyClear; simp only []; repeat' split
+  all_goals simp
+@[simp] theorem optionsStar_pctx (s : ReqLive) : (optionsStar s).pluginCtx = s.pluginCtx := by simp [optionsStar]
+@[simp] theorem errorClose_pctx (s : ReqLive) (st) : (errorClose s st).pluginCtx = s.pluginCtx := rfl
+@[simp] theorem sendFile_pctx (s : ReqLive) (a b c) : (sendFile s a b c).pluginCtx = s.pluginCtx := by
+  unfold sendFile; simp only []; repeat' split
+  all_goals simp
+@[simp] theorem noHandler_pctx (s : ReqLive) : (noHandler s).pluginCtx = s.pluginCtx := by
+  unfold noHandler; repeat' split
+  all_goals simp
+@[simp] theorem sinkHandle_pctx (site) (s : ReqLive) : (sinkHandle site s).pluginCtx = s.pluginCtx := by simp [sinkHandle]
+@[simp] theorem storeError_pctx (s : ReqLive) (a b c) : (storeError s a b c).pluginCtx = s.pluginCtx := rfl
+@[simp] theorem storeParsed_pctx (s : ReqCore) (a b c d f g h) : (storeParsed s a b c d f g h).pluginCtx = s.pluginCtx := rfl
+@[simp] theorem httpResponseConfig_pctx (site) (s : ReqCore) : (httpResponseConfig site s).pluginCtx = s.pluginCtx := by
+  unfold httpResponseConfig; simp only []; split <;> simp [ReqCore.onLive]
+
+theorem foldl_respInsert_pctx (hs : List (Bytes × Bytes)) : ∀ s : ReqLive,
+    (hs.foldl (fun s kv => respInsert s (hid (kv.1.map toLower)) kv.1 kv.2) s).pluginCtx = s.pluginCtx := by
+  induction hs with
+  | nil => intro s; rfl
+  | cons kv rest ih => intro s; simp only [List.foldl_cons]; rw [ih]; simp
+
+@[simp] theorem setenvResponseStart_pctx (s : ReqLive) : (setenvResponseStart s).pluginCtx = s.pluginCtx := by
+  unfold setenvResponseStart; split
+  · rfl
+  · exact foldl_respInsert_pctx _ _
+@[simp] theorem staticErrdoc_pctx (s : ReqLive) : (staticErrdoc s).pluginCtx = s.pluginCtx := by
+  unfold staticErrdoc; simp only []; repeat' split
+  all_goals simp
+@[simp] theorem wpStatus_pctx (s : ReqLive) : (wpStatus s).pluginCtx = s.pluginCtx := by
+  unfold wpStatus; simp only []; repeat' split
+  all_goals simp
+@[simp] theorem wpFraming_pctx (s : ReqLive) : (wpFraming s).pluginCtx = s.pluginCtx := by
+  unfold wpFraming; simp only []; repeat' split
+  all_goals simp
+@[simp] theorem wpHead_pctx (s : ReqLive) : (wpHead s).pluginCtx = s.pluginCtx := by
+  unfold wpHead; split <;> simp
+@[simp] theorem writePrepare_pctx (s : ReqLive) : (writePrepare s).pluginCtx = s.pluginCtx := by
+  simp [writePrepare]
+@[simp] theorem hasErrorHandler_pctx (m) (s : ReqLive) : (hasErrorHandler m s).pluginCtx = s.pluginCtx := by
+  unfold hasErrorHandler; simp only []; repeat' split
+  all_goals simp
+@[simp] theorem preWrite_pctx (m) (s : ReqLive) : (preWrite m s).pluginCtx = s.pluginCtx := by
+  unfold preWrite; simp only []; repeat' split
+  all_goals simp
+@[simp] theorem h1SendHeaders_pctx (n) (s : ReqLive) : (h1SendHeaders n s).pluginCtx = s.pluginCtx := by
+  unfold h1SendHeaders; simp only []; repeat' split
+  all_goals simp
+
+theorem setenvUriClean_slots (e : SrvEnv) (h1 : 1 ∈ e.resetHooks) (s : ReqLive) (hs : SlotsOk e s.pluginCtx) :
+    SlotsOk e (setenvUriClean s).pluginCtx := by
+  unfold setenvUriClean; split
+  · exact hs
+  · intro p hp
+    simp only [pctxSet, List.mem_cons, List.mem_filter] at hp
+    rcases hp with hp | hp
+    · rw [hp]; exact h1
+    · exact hs p hp.1
+
+theorem subrequestStart_pctx (site) (s : ReqCore) : (subrequestStart site s).pluginCtx = s.pluginCtx := by
+  unfold subrequestStart; simp only []; repeat' split
+  all_goals simp [ReqCore.onLive]
+
+theorem prepareSetup_slots (e : SrvEnv) (h1 : 1 ∈ e.resetHooks) (site) (s : ReqCore) (hs : SlotsOk e s.pluginCtx) :
+    SlotsOk e (exGet (prepareSetup site s)).pluginCtx := by
+  have hc : SlotsOk e (setenvUriClean (httpResponseConfig site s).toReqLive).pluginCtx :=
+    setenvUriClean_slots e h1 _ (by simpa using hs)
+  unfold prepareSetup; simp only []; repeat' split
+  all_goals simp only [exGet, ReqCore.onLive, errorClose_pctx, optionsStar_pctx, httpResponseConfig_pctx]
+  all_goals first | exact hs | exact hc
+
+theorem prepareServe_pctx (site) (s : ReqCore) : (prepareServe site s).pluginCtx = s.pluginCtx := by
+  unfold prepareServe; simp only []; repeat' split
+  all_goals simp_all [ReqCore.onLive, subrequestStart_pctx]
+
+theorem responsePrepare_slots (e : SrvEnv) (h1 : 1 ∈ e.resetHooks) (site) (s : ReqCore) (hs : SlotsOk e s.pluginCtx) :
+    SlotsOk e (responsePrepare site s).pluginCtx := by
+  have h := prepareSetup_slots e h1 site s hs
+  unfold responsePrepare
+  split
+  · split
+    · simpa [ReqCore.onLive] using hs
+    · exact hs
+  · split
+    · rename_i t ht; rw [ht] at h; exact h
+    · rename_i t ht; rw [ht] at h; rw [prepareServe_pctx]; exact h
+
+theorem respondC_slots (e : SrvEnv) (h1 : 1 ∈ e.resetHooks) (site) (m) (s : ReqCore) (hs : SlotsOk e s.pluginCtx) :
+    SlotsOk e (respondC site m s).pluginCtx := by
+  show SlotsOk e (respondC site m s).toReqLive.pluginCtx
+  rw [respondC_live]
+  simp only [writePrepare_pctx, preWrite_pctx]
+  unfold prepared; split
+  · simpa [ReqCore.onLive] using hs
+  · exact responsePrepare_slots e h1 site s hs
 
 /-! ### the keep-alive decision only shows in the Connection header -/
 
@@ -282,6 +409,22 @@ theorem parseIntoH1C_ehs (s c : ReqCore) (b : Bytes) (h : (parseIntoH1C s b).don
   all_goals simp_all [IntoRes.done?, ReqCore.onLive]
   all_goals (try (subst h; rfl))
 
+theorem parseIntoH1C_pctx (s c : ReqCore) (b : Bytes) (h : (parseIntoH1C s b).done? = some c) :
+    c.pluginCtx = s.pluginCtx := by
+  unfold parseIntoH1C at h
+  simp only [] at h
+  repeat' split at h
+  all_goals simp_all [IntoRes.done?, ReqCore.onLive]
+  all_goals (try (subst h; rfl))
+
+theorem parseIntoH2C_pctx (s c : ReqCore) (fs : List (Bytes × Bytes)) (es : Bool)
+    (h : (parseIntoH2C s fs es).done? = some c) : c.pluginCtx = s.pluginCtx := by
+  unfold parseIntoH2C at h
+  simp only [] at h
+  repeat' split at h
+  all_goals simp_all [IntoRes.done?, ReqCore.onLive]
+  all_goals (try (subst h; rfl))
+
 theorem parseIntoH2C_ehs (s c : ReqCore) (fs : List (Bytes × Bytes)) (es : Bool)
     (h : (parseIntoH2C s fs es).done? = some c) :
     c.errorHandlerSavedStatus = s.errorHandlerSavedStatus := by
@@ -292,6 +435,56 @@ theorem parseIntoH2C_ehs (s c : ReqCore) (fs : List (Bytes × Bytes)) (es : Bool
   all_goals (try (subst h; rfl))
 
 /-! ### one request on an HTTP/1.x connection -/
+
+theorem splitLines_cons_prefix : ∀ (bs cur l : Bytes) (rest : List Bytes),
+    splitLines bs cur = l :: rest → ∃ tail, cur ++ bs = l ++ tail := by
+  intro bs
+  induction bs with
+  | nil => intro cur l rest h; simp [splitLines] at h
+  | cons b t ih =>
+    intro cur l rest h
+    unfold splitLines at h
+    split at h
+    · simp only [List.cons.injEq] at h
+      exact ⟨t, by rw [← h.1]; simp⟩
+    · obtain ⟨tail, ht⟩ := ih (cur ++ [b]) l rest h
+      exact ⟨tail, by rw [← ht]; simp⟩
+
+theorem takeHead_nil_lines : ∀ (ls acc : List Bytes) (bl : Bytes),
+    takeHead ls acc = some ([], bl) → acc = [] ∧ ∃ rest, ls = bl :: rest ∧ isBlankLine bl = true := by
+  intro ls
+  induction ls with
+  | nil => intro acc bl h; simp [takeHead] at h
+  | cons l rest ih =>
+    intro acc bl h
+    unfold takeHead at h
+    split at h
+    · rename_i hb
+      simp only [Option.some.injEq, Prod.mk.injEq, List.reverse_eq_nil_iff] at h
+      exact ⟨h.1, rest, by rw [h.2], by rw [← h.2]; exact hb⟩
+    · have := (ih (l :: acc) bl h).1
+      simp at this
+
+theorem recvHead_blank_startsBlank (mf : Nat) (block : Bytes) (n : Nat) (h : recvHead mf block = .blank n) :
+    startsBlank block = true := by
+  unfold recvHead at h
+  simp only [] at h
+  split at h
+  · split at h <;> simp at h
+  · rename_i lines bl ht
+    split at h
+    · simp at h
+    · split at h
+      · rename_i hl
+        have hl' : lines = [] := by simpa using hl
+        subst hl'
+        obtain ⟨_, rest, hls, hb⟩ := takeHead_nil_lines _ _ _ ht
+        obtain ⟨tail, htl⟩ := splitLines_cons_prefix block [] bl rest hls
+        simp only [List.nil_append] at htl
+        unfold isBlankLine at hb
+        simp only [Bool.or_eq_true, decide_eq_true_eq] at hb
+        rcases hb with hb | hb <;> subst hb <;> simp [startsBlank, htl]
+      · simp at h
 
 /-- what holds of the request object of a connection between two requests -/
 def ConnInv (e : SrvEnv) (c : Conn) : Prop :=
@@ -304,8 +497,8 @@ def coreAnswer (site : Site) (c : ReqCore) : Int × List (Bytes × Bytes) × Byt
 theorem respond_core (site : Site) (s : ReqSt) :
     (respond site s).toReqCore = respondC site s.errorHandlerSavedMethod s.toReqCore := rfl
 
-theorem h1Finish_core (site : Site) (e : SrvEnv) (count : Nat) (r1 : ReqSt)
-    (h0 : r1.errorHandlerSavedStatus = 0) (hc : count ≠ 0) :
+theorem h1Finish_core (site : Site) (e : SrvEnv) (h1h : 1 ∈ e.resetHooks) (count : Nat) (r1 : ReqSt)
+    (h0 : r1.errorHandlerSavedStatus = 0) (hsl : SlotsOk e r1.pluginCtx) (hc : count ≠ 0) :
     ((h1Finish site e count r1).2).map Out.core = some (coreAnswer site r1.toReqCore) ∧
     ConnInv e (h1Finish site e count r1).1 := by
   have hout : (h1Output ((respond site r1).onLive (h1SendHeaders count)).toReqLive).core
@@ -315,53 +508,92 @@ theorem h1Finish_core (site : Site) (e : SrvEnv) (count : Nat) (r1 : ReqSt)
     show (h1Output (respond site r1).toReqCore.toReqLive).core = _
     rw [respond_core, respondC_kept site _ 0 _ h0]
     rfl
+  have hs2 : SlotsOk e ((respond site r1).onLive (h1SendHeaders count)).pluginCtx := by
+    show SlotsOk e (h1SendHeaders count (respond site r1).toReqCore.toReqLive).pluginCtx
+    rw [h1SendHeaders_pctx, respond_core]
+    exact respondC_slots e h1h site _ _ hsl
   unfold h1Finish
   simp only []
   split
   · refine ⟨?_, ?_, ?_⟩
     · simp only [Option.map_some]; rw [← hout]; rfl
-    · exact requestReset_live e _
+    · exact requestReset_live e _ hs2
     · intro h; exact absurd h hc
   · refine ⟨?_, ?_, ?_⟩
     · simp only [Option.map_some]; rw [← hout]; rfl
-    · have := reset_core e ((respond site r1).onLive (h1SendHeaders count))
+    · have := reset_core e ((respond site r1).onLive (h1SendHeaders count)) hs2
       exact congrArg ReqCore.toReqLive this
     · intro _
-      have := reset_core e ((respond site r1).onLive (h1SendHeaders count))
+      have := reset_core e ((respond site r1).onLive (h1SendHeaders count)) hs2
       exact congrArg ReqCore.toReqKept this
 
-theorem ConnInv_closed (e : SrvEnv) (r : ReqSt) :
+theorem ConnInv_closed (e : SrvEnv) (r : ReqSt) (hs : SlotsOk e r.pluginCtx) :
     ConnInv e { r := { requestResetEx (requestReset hdrIds e r) with state := 0 }, requestCount := 0, isOpen := false } :=
-  ⟨congrArg ReqCore.toReqLive (reset_core e r), fun _ => congrArg ReqCore.toReqKept (reset_core e r)⟩
+  ⟨congrArg ReqCore.toReqLive (reset_core e r hs), fun _ => congrArg ReqCore.toReqKept (reset_core e r hs)⟩
 
-/-- the live fields of a request rejected by the size limit of h1_recv_headers() -/
-def live431 (e : SrvEnv) : ReqLive := { (ReqSt.init e).toReqLive with httpStatus := 431, keepAlive := 0 }
+theorem ConnInv.slots {e : SrvEnv} {c : Conn} (h : ConnInv e c) : SlotsOk e c.r.pluginCtx := by
+  have : c.r.pluginCtx = [] := by
+    have := congrArg ReqLive.pluginCtx h.1; simpa [ReqSt.init] using this
+  rw [this]; exact SlotsOk.nil e
 
-theorem h1Parse_core (e : SrvEnv) (c : Conn) (hinv : ConnInv e c) (head : Bytes) :
+/-- the data starts the way a request starts: not with CR / LF / another control byte -/
+def ReqStart (head : Bytes) : Prop := ∃ b, head.head? = some b ∧ ¬ b < 32
+
+theorem ReqStart.notCtl {head : Bytes} (h : ReqStart head) : isCtl head = false := by
+  obtain ⟨b, hb, hn⟩ := h; simp [isCtl, hb, hn]
+
+theorem ReqStart.notBlank {head : Bytes} (h : ReqStart head) : startsBlank head = false := by
+  obtain ⟨b, hb, hn⟩ := h
+  simp only [startsBlank, hb, Option.some.injEq, Bool.or_eq_false_iff, decide_eq_false_iff_not]
+  constructor <;> (intro hh; subst hh; revert hn; decide)
+
+/-- the live fields of a request rejected by h1_recv_headers() with `st` -/
+def liveRej (e : SrvEnv) (st : Int) : ReqLive := { (ReqSt.init e).toReqLive with httpStatus := st, keepAlive := 0 }
+
+/-- on data that starts like a request the blank-line rules of h1_recv_headers() do not apply -/
+theorem h1Parse_reqStart (c : Conn) (head : Bytes) (hr : ReqStart head) :
+    h1Parse c head = h1ParseNoDiscard c
+      { (c.r.onLive fun l => { l with loopsPerRequest := 0 }) with
+        readQueue := { c.r.readQueue with bytesIn := c.r.readQueue.bytesIn + head.length } } head := by
+  unfold h1Parse
+  simp only [hr.notBlank, Bool.false_eq_true, if_false]
+  split
+  · rfl
+  · split
+    · rename_i len hb
+      have := recvHead_blank_startsBlank _ _ _ hb
+      rw [hr.notBlank] at this; simp at this
+    · rfl
+
+theorem h1Parse_core (e : SrvEnv) (c : Conn) (hinv : ConnInv e c) (head : Bytes) (hr : ReqStart head) :
     (h1Parse c head).map (·.toReqCore) =
       match recvHead e.defaults.maxRequestFieldSize head with
-      | .tooLarge => .done { toReqLive := live431 e, toReqKept := c.r.toReqKept }
+      | .tooLarge => .done { toReqLive := liveRej e 431, toReqKept := c.r.toReqKept }
       | .head _ _ => parseIntoH1C (ReqSt.init e).toReqCore head
       | .incomplete => .incomplete
-      | .blank _ => .blank := by
+      | .blank _ => .done { toReqLive := liveRej e 400, toReqKept := c.r.toReqKept } := by
   obtain ⟨hl, hk⟩ := hinv
-  have hl0 : (c.r.onLive fun l => { l with loopsPerRequest := 0 }).toReqLive = (ReqSt.init e).toReqLive := by
+  rw [h1Parse_reqStart c head hr]
+  generalize hr0 : ({ (c.r.onLive fun l => { l with loopsPerRequest := 0 }) with
+        readQueue := { c.r.readQueue with bytesIn := c.r.readQueue.bytesIn + head.length } } : ReqSt) = r0
+  have hl0 : r0.toReqLive = (ReqSt.init e).toReqLive := by
+    rw [← hr0]
     show ({ c.r.toReqLive with loopsPerRequest := 0 } : ReqLive) = _
     rw [hl]; rfl
-  have hconf : (c.r.onLive fun l => { l with loopsPerRequest := 0 }).conf.maxRequestFieldSize
-      = e.defaults.maxRequestFieldSize := by
+  have hk0 : r0.toReqKept = c.r.toReqKept := by rw [← hr0]; rfl
+  have hconf : r0.conf.maxRequestFieldSize = e.defaults.maxRequestFieldSize := by
     have := congrArg (fun l : ReqLive => l.conf.maxRequestFieldSize) hl0
     simpa [ReqSt.init] using this
-  unfold h1Parse
-  simp only [hconf]
-  cases hr : recvHead e.defaults.maxRequestFieldSize head with
+  unfold h1ParseNoDiscard
+  simp only [hconf, hr.notCtl, Bool.false_eq_true, if_false]
+  cases hrr : recvHead e.defaults.maxRequestFieldSize head with
   | tooLarge =>
     simp only [IntoRes.map]
     congr 1
     apply ReqCore.ext2
-    · show ({ (c.r.onLive fun l => { l with loopsPerRequest := 0 }).toReqLive with httpStatus := 431, keepAlive := 0 } : ReqLive) = _
+    · show ({ r0.toReqLive with httpStatus := 431, keepAlive := 0 } : ReqLive) = _
       rw [hl0]; rfl
-    · rfl
+    · exact hk0
   | head lines len =>
     simp only []
     rw [parseIntoH1_core]
@@ -371,138 +603,114 @@ theorem h1Parse_core (e : SrvEnv) (c : Conn) (hinv : ConnInv e c) (head : Bytes)
       simp only [this, if_false]
       apply ReqCore.ext2
       · exact hl0
-      · exact hk hcnt
+      · rw [hk0]; exact hk hcnt
     · have : c.requestCount + 1 > 1 := by omega
       simp only [this, if_true]
       exact requestResetEx_core e _ hl0
   | incomplete => rfl
-  | blank n => rfl
+  | blank n =>
+    simp only [reject400, IntoRes.map]
+    congr 1
+    apply ReqCore.ext2
+    · show ({ r0.toReqLive with httpStatus := 400, keepAlive := 0 } : ReqLive) = _
+      rw [hl0]; rfl
+    · exact hk0
 
-/-- the comparable part of the answer to a request head as a function of the head, the site and
-    the configuration alone (`none`: the head is incomplete / only a blank line) -/
+/-- the comparable part of the answer to data that starts like a request, as a function of the
+    data, the site and the configuration alone (`none`: the head is incomplete) -/
 def expectedAnswer (site : Site) (e : SrvEnv) (head : Bytes) : Option (Int × List (Bytes × Bytes) × Bytes) :=
   match recvHead e.defaults.maxRequestFieldSize head with
-  | .tooLarge => some (coreAnswer site { toReqLive := live431 e, toReqKept := (ReqSt.init e).toReqKept })
+  | .tooLarge => some (coreAnswer site { toReqLive := liveRej e 431, toReqKept := (ReqSt.init e).toReqKept })
   | .head _ _ => ((parseIntoH1C (ReqSt.init e).toReqCore head).done?).map (coreAnswer site)
   | .incomplete => none
-  | .blank _ => none
+  | .blank _ => some (coreAnswer site { toReqLive := liveRej e 400, toReqKept := (ReqSt.init e).toReqKept })
 
-theorem coreAnswer_431 (site : Site) (e : SrvEnv) (k1 k2 : ReqKept) :
-    coreAnswer site { toReqLive := live431 e, toReqKept := k1 } = coreAnswer site { toReqLive := live431 e, toReqKept := k2 } := by
+theorem coreAnswer_rej (site : Site) (e : SrvEnv) (st : Int) (hst : st > 200) (k1 k2 : ReqKept) :
+    coreAnswer site { toReqLive := liveRej e st, toReqKept := k1 } = coreAnswer site { toReqLive := liveRej e st, toReqKept := k2 } := by
   unfold coreAnswer
-  rw [respondC_err_live site 0 { toReqLive := live431 e, toReqKept := k1 } { toReqLive := live431 e, toReqKept := k2 } rfl
-        (by simp [live431])]
+  rw [respondC_err_live site 0 { toReqLive := liveRej e st, toReqKept := k1 } { toReqLive := liveRej e st, toReqKept := k2 } rfl
+        (by simpa [liveRej] using hst)]
 
 theorem IntoRes.map_done? {σ τ : Type} (f : σ → τ) (r : IntoRes σ) : (r.map f).done? = r.done?.map f := by
   cases r <;> rfl
 
+/-- the parse outcome of a connection satisfying the invariant, as an option -/
+def parsedCore (e : SrvEnv) (k : ReqKept) (head : Bytes) : Option ReqCore :=
+  match recvHead e.defaults.maxRequestFieldSize head with
+  | .tooLarge => some { toReqLive := liveRej e 431, toReqKept := k }
+  | .head _ _ => (parseIntoH1C (ReqSt.init e).toReqCore head).done?
+  | .incomplete => none
+  | .blank _ => some { toReqLive := liveRej e 400, toReqKept := k }
+
+theorem h1Parse_done (e : SrvEnv) (c : Conn) (hinv : ConnInv e c) (head : Bytes) (hr : ReqStart head) :
+    (h1Parse c head).done?.map (·.toReqCore) = parsedCore e c.r.toReqKept head := by
+  have hp := congrArg IntoRes.done? (h1Parse_core e c hinv head hr)
+  rw [IntoRes.map_done?] at hp
+  rw [hp]
+  unfold parsedCore
+  cases recvHead e.defaults.maxRequestFieldSize head <;> rfl
+
+theorem parsedCore_facts (e : SrvEnv) (k : ReqKept) (head : Bytes) (c1 : ReqCore)
+    (h : parsedCore e k head = some c1) :
+    c1.errorHandlerSavedStatus = 0 ∧ c1.pluginCtx = [] := by
+  unfold parsedCore at h
+  cases hr : recvHead e.defaults.maxRequestFieldSize head with
+  | tooLarge => simp only [hr, Option.some.injEq] at h; subst h; simp [liveRej, ReqSt.init]
+  | blank n => simp only [hr, Option.some.injEq] at h; subst h; simp [liveRej, ReqSt.init]
+  | incomplete => simp [hr] at h
+  | head lines len =>
+    simp only [hr] at h
+    exact ⟨by rw [parseIntoH1C_ehs _ _ _ h]; simp [ReqSt.init], by rw [parseIntoH1C_pctx _ _ _ h]; simp [ReqSt.init]⟩
+
+theorem expectedAnswer_eq (site : Site) (e : SrvEnv) (k : ReqKept) (head : Bytes) :
+    (parsedCore e k head).map (coreAnswer site) = expectedAnswer site e head := by
+  unfold parsedCore expectedAnswer
+  cases recvHead e.defaults.maxRequestFieldSize head with
+  | tooLarge => exact congrArg some (coreAnswer_rej site e 431 (by decide) _ _)
+  | blank n => exact congrArg some (coreAnswer_rej site e 400 (by decide) _ _)
+  | incomplete => rfl
+  | head lines len => rfl
+
 /-- **one request on a connection whose request object satisfies the invariant**: the answer is
     `expectedAnswer`, and the invariant holds again afterwards -/
-theorem h1Msg_answer (site : Site) (e : SrvEnv) (c : Conn) (hinv : ConnInv e c) (hopen : c.isOpen = true)
-    (head : Bytes) :
+theorem h1Msg_answer (site : Site) (e : SrvEnv) (h1h : 1 ∈ e.resetHooks) (c : Conn) (hinv : ConnInv e c)
+    (hopen : c.isOpen = true) (head : Bytes) (hr : ReqStart head) :
     ((h1Msg site e c head).2).map Out.core = expectedAnswer site e head ∧ ConnInv e (h1Msg site e c head).1 := by
-  have hp := h1Parse_core e c hinv head
-  have hp' := congrArg IntoRes.done? hp
-  rw [IntoRes.map_done?] at hp'
+  have hd := h1Parse_done e c hinv head hr
+  rw [← expectedAnswer_eq site e c.r.toReqKept head, ← hd]
   unfold h1Msg
   simp only [hopen, Bool.not_true, Bool.false_eq_true, if_false]
-  unfold expectedAnswer
   cases hparse : h1Parse c head with
   | done r1 =>
-    have hq : some r1.toReqCore = IntoRes.done?
-        (match recvHead e.defaults.maxRequestFieldSize head with
-         | .tooLarge => .done { toReqLive := live431 e, toReqKept := c.r.toReqKept }
-         | .head _ _ => parseIntoH1C (ReqSt.init e).toReqCore head
-         | .incomplete => .incomplete
-         | .blank _ => .blank) := by rw [hparse] at hp'; exact hp'
-    clear hp'
-    have h0 : r1.errorHandlerSavedStatus = 0 := by
-      show r1.toReqCore.errorHandlerSavedStatus = 0
-      cases hr : recvHead e.defaults.maxRequestFieldSize head with
-      | tooLarge =>
-        simp only [hr] at hq
-        have : r1.toReqCore = { toReqLive := live431 e, toReqKept := c.r.toReqKept } := Option.some.inj hq
-        rw [this]; simp [live431, ReqSt.init]
-      | head lines len =>
-        simp only [hr] at hq
-        rw [parseIntoH1C_ehs _ _ _ hq.symm]; simp [ReqSt.init]
-      | incomplete => simp only [hr] at hq; exact absurd hq (by simp [IntoRes.done?])
-      | blank n => simp only [hr] at hq; exact absurd hq (by simp [IntoRes.done?])
-    have hf := h1Finish_core site e (c.requestCount + 1) r1 h0 (by omega)
-    refine ⟨?_, hf.2⟩
-    rw [hf.1]
-    cases hr : recvHead e.defaults.maxRequestFieldSize head with
-    | tooLarge =>
-      simp only [hr] at hq
-      have : r1.toReqCore = { toReqLive := live431 e, toReqKept := c.r.toReqKept } := Option.some.inj hq
-      simp only []
-      rw [this]
-      exact congrArg some (coreAnswer_431 site e _ _)
-    | head lines len =>
-      simp only [hr] at hq
-      simp only []
-      rw [← hq]; rfl
-    | incomplete => simp only [hr] at hq; exact absurd hq (by simp [IntoRes.done?])
-    | blank n => simp only [hr] at hq; exact absurd hq (by simp [IntoRes.done?])
-  | incomplete =>
-    have hq : none = IntoRes.done?
-        (match recvHead e.defaults.maxRequestFieldSize head with
-         | .tooLarge => .done { toReqLive := live431 e, toReqKept := c.r.toReqKept }
-         | .head _ _ => parseIntoH1C (ReqSt.init e).toReqCore head
-         | .incomplete => .incomplete
-         | .blank _ => .blank) := by rw [hparse] at hp'; exact hp'
-    refine ⟨?_, ConnInv_closed e c.r⟩
-    cases hr : recvHead e.defaults.maxRequestFieldSize head with
-    | tooLarge => simp only [hr] at hq; exact absurd hq (by simp [IntoRes.done?])
-    | head lines len => simp only [hr] at hq; simp only []; rw [← hq]; rfl
-    | incomplete => rfl
-    | blank n => rfl
-  | blank =>
-    have hq : none = IntoRes.done?
-        (match recvHead e.defaults.maxRequestFieldSize head with
-         | .tooLarge => .done { toReqLive := live431 e, toReqKept := c.r.toReqKept }
-         | .head _ _ => parseIntoH1C (ReqSt.init e).toReqCore head
-         | .incomplete => .incomplete
-         | .blank _ => .blank) := by rw [hparse] at hp'; exact hp'
-    refine ⟨?_, ConnInv_closed e c.r⟩
-    cases hr : recvHead e.defaults.maxRequestFieldSize head with
-    | tooLarge => simp only [hr] at hq; exact absurd hq (by simp [IntoRes.done?])
-    | head lines len => simp only [hr] at hq; simp only []; rw [← hq]; rfl
-    | incomplete => rfl
-    | blank n => rfl
-  | skipV6 =>
-    have hq : none = IntoRes.done?
-        (match recvHead e.defaults.maxRequestFieldSize head with
-         | .tooLarge => .done { toReqLive := live431 e, toReqKept := c.r.toReqKept }
-         | .head _ _ => parseIntoH1C (ReqSt.init e).toReqCore head
-         | .incomplete => .incomplete
-         | .blank _ => .blank) := by rw [hparse] at hp'; exact hp'
-    refine ⟨?_, ConnInv_closed e c.r⟩
-    cases hr : recvHead e.defaults.maxRequestFieldSize head with
-    | tooLarge => simp only [hr] at hq; exact absurd hq (by simp [IntoRes.done?])
-    | head lines len => simp only [hr] at hq; simp only []; rw [← hq]; rfl
-    | incomplete => rfl
-    | blank n => rfl
+    have hpc : parsedCore e c.r.toReqKept head = some r1.toReqCore := by rw [← hd, hparse]; rfl
+    have hf := parsedCore_facts e _ head _ hpc
+    have hs : SlotsOk e r1.pluginCtx := by
+      show SlotsOk e r1.toReqCore.pluginCtx
+      rw [hf.2]; exact SlotsOk.nil e
+    have := h1Finish_core site e h1h (c.requestCount + 1) r1 hf.1 hs (by omega)
+    exact ⟨by rw [this.1]; rfl, this.2⟩
+  | blank => exact ⟨rfl, hinv⟩
+  | incomplete => exact ⟨rfl, ConnInv_closed e c.r hinv.slots⟩
+  | skipV6 => exact ⟨rfl, ConnInv_closed e c.r hinv.slots⟩
 
 theorem ConnInv_fresh (e : SrvEnv) : ConnInv e (Conn.fresh e) := ⟨rfl, fun _ => rfl⟩
 
-/-- the connection after the request heads `P` have been handled one after the other -/
+/-- the connection after the data `P` (request heads) has been handled piece by piece -/
 def connAfter (site : Site) (e : SrvEnv) (c : Conn) : List Bytes → Conn
   | [] => c
   | head :: rest => connAfter site e (h1Msg site e c head).1 rest
 
-theorem connInv_after (site : Site) (e : SrvEnv) (P : List Bytes) :
-    ∀ c, ConnInv e c → ConnInv e (connAfter site e c P) := by
+theorem connInv_after (site : Site) (e : SrvEnv) (h1h : 1 ∈ e.resetHooks) (P : List Bytes)
+    (hP : ∀ h ∈ P, ReqStart h) : ∀ c, ConnInv e c → ConnInv e (connAfter site e c P) := by
   induction P with
   | nil => intro c h; exact h
   | cons head rest ih =>
     intro c h
-    apply ih
+    apply ih (fun x hx => hP x (by simp [hx]))
     by_cases ho : c.isOpen = true
-    · exact (h1Msg_answer site e c h ho head).2
+    · exact (h1Msg_answer site e h1h c h ho head (hP head (by simp))).2
     · have : h1Msg site e c head = (c, none) := by simp [h1Msg, ho]
       rw [this]; exact h
-
 
 /-! ### one HTTP/2 stream on a pooled request object -/
 
@@ -512,7 +720,7 @@ theorem h2InitStream_core (h2r : ReqSt) (swin : Nat) (p q : ReqSt) (h : p.toReqC
   have hk : p.toReqKept = q.toReqKept := congrArg ReqCore.toReqKept h
   unfold h2InitStream
   apply ReqCore.ext2
-  · show ({ p.toReqLive with x1 := _, x2 := _, version := 2, conf := h2r.conf } : ReqLive) = _
+  · show ({ p.toReqLive with x2 := _, version := 2, conf := h2r.conf } : ReqLive) = _
     rw [hl]
   · show ({ p.toReqKept with serverName := _ } : ReqKept) = _
     rw [hk]
@@ -526,8 +734,11 @@ def expectedAnswerH2 (site : Site) (e : SrvEnv) (h2r : ReqSt) (swin : Nat) (fs :
     (es : Bool) : Option (Int × List (Bytes × Bytes) × Bytes) :=
   ((parseIntoH2C (h2InitStream h2r swin (ReqSt.init e)).toReqCore fs es).done?).map (coreAnswer site)
 
-theorem h2Stream_answer (site : Site) (e : SrvEnv) (h2r : ReqSt) (swin : Nat) (pooled : ReqSt)
-    (hp : pooled.toReqCore = (ReqSt.init e).toReqCore) (fs : List (Bytes × Bytes)) (es : Bool) :
+theorem h2InitStream_pctx (h2r : ReqSt) (swin : Nat) (p : ReqSt) :
+    (h2InitStream h2r swin p).pluginCtx = p.pluginCtx := rfl
+
+theorem h2Stream_answer (site : Site) (e : SrvEnv) (h1h : 1 ∈ e.resetHooks) (h2r : ReqSt) (swin : Nat)
+    (pooled : ReqSt) (hp : pooled.toReqCore = (ReqSt.init e).toReqCore) (fs : List (Bytes × Bytes)) (es : Bool) :
     ((h2Stream site e h2r swin pooled fs es).2).map Out.core = expectedAnswerH2 site e h2r swin fs es ∧
     (h2Stream site e h2r swin pooled fs es).1.toReqCore = (ReqSt.init e).toReqCore := by
   have hc := h2InitStream_core h2r swin pooled (ReqSt.init e) hp
@@ -535,6 +746,12 @@ theorem h2Stream_answer (site : Site) (e : SrvEnv) (h2r : ReqSt) (swin : Nat) (p
   rw [hc] at hparse
   have hq := congrArg IntoRes.done? hparse
   rw [IntoRes.map_done?] at hq
+  have hpc : pooled.pluginCtx = [] := by
+    have := congrArg (fun c : ReqCore => c.pluginCtx) hp
+    simpa [ReqSt.init] using this
+  have hs0 : SlotsOk e (h2InitStream h2r swin pooled).toReqCore.pluginCtx := by
+    show SlotsOk e (h2InitStream h2r swin pooled).pluginCtx
+    rw [h2InitStream_pctx, hpc]; exact SlotsOk.nil e
   unfold h2Stream expectedAnswerH2
   simp only []
   cases hr : parseIntoH2 (h2InitStream h2r swin pooled) fs es with
@@ -546,7 +763,13 @@ theorem h2Stream_answer (site : Site) (e : SrvEnv) (h2r : ReqSt) (swin : Nat) (p
       rw [parseIntoH2C_ehs _ _ _ _ hq'.symm]
       show (h2InitStream h2r swin (ReqSt.init e)).errorHandlerSavedStatus = 0
       rw [h2InitStream_ehs]; simp [ReqSt.init]
-    refine ⟨?_, requestRelease_core e _⟩
+    have hs1 : SlotsOk e r1.toReqCore.pluginCtx := by
+      rw [parseIntoH2C_pctx _ _ _ _ hq'.symm]
+      show SlotsOk e (h2InitStream h2r swin (ReqSt.init e)).pluginCtx
+      rw [h2InitStream_pctx]; simp [ReqSt.init]; exact SlotsOk.nil e
+    have hs2 : SlotsOk e (respond site r1).toReqCore.pluginCtx := by
+      rw [respond_core]; exact respondC_slots e h1h site _ _ hs1
+    refine ⟨?_, requestRelease_core e _ hs2⟩
     simp only [Option.map_some]
     rw [← hq']
     simp only [Option.map_some]
@@ -558,20 +781,37 @@ theorem h2Stream_answer (site : Site) (e : SrvEnv) (h2r : ReqSt) (swin : Nat) (p
           (respond site r1).toReqCore.toReqLive.writeQueue.data) = _
     rw [respond_core, respondC_kept site _ 0 _ h0]
   | incomplete =>
-    refine ⟨?_, requestRelease_core e _⟩
+    refine ⟨?_, requestRelease_core e _ hs0⟩
     have : none = (parseIntoH2C (h2InitStream h2r swin (ReqSt.init e)).toReqCore fs es).done? := by
       rw [hr] at hq; exact hq
     rw [← this]; rfl
   | blank =>
-    refine ⟨?_, requestRelease_core e _⟩
+    refine ⟨?_, requestRelease_core e _ hs0⟩
     have : none = (parseIntoH2C (h2InitStream h2r swin (ReqSt.init e)).toReqCore fs es).done? := by
       rw [hr] at hq; exact hq
     rw [← this]; rfl
   | skipV6 =>
-    refine ⟨?_, requestRelease_core e _⟩
+    refine ⟨?_, requestRelease_core e _ hs0⟩
     have : none = (parseIntoH2C (h2InitStream h2r swin (ReqSt.init e)).toReqCore fs es).done? := by
       rw [hr] at hq; exact hq
     rw [← this]; rfl
+
+/-- the connection-level request `h2r` reaches the answer of a stream only through its
+    configuration, its `server_name` selector and nothing else: two `h2r` that agree on these give
+    the same expected answer.  (`h2r.conf` and the condition caches are written once per
+    connection, before the first stream; no stream writes them.) -/
+theorem expectedAnswerH2_h2r (site : Site) (e : SrvEnv) (a b : ReqSt) (swin swin' : Nat)
+    (hconf : a.conf = b.conf) (hsn : a.serverName = b.serverName) (fs : List (Bytes × Bytes)) (es : Bool) :
+    expectedAnswerH2 site e a swin fs es = expectedAnswerH2 site e b swin' fs es := by
+  have : (h2InitStream a swin (ReqSt.init e)).toReqCore = (h2InitStream b swin' (ReqSt.init e)).toReqCore := by
+    unfold h2InitStream
+    apply ReqCore.ext2
+    · show ({ (ReqSt.init e).toReqLive with x2 := _, version := 2, conf := a.conf } : ReqLive) = _
+      rw [hconf]
+    · show ({ (ReqSt.init e).toReqKept with serverName := _ } : ReqKept) = _
+      rw [hsn]
+  unfold expectedAnswerH2
+  rw [this]
 
 /-! ### the HTTP/1.x and the HTTP/2 header parsers store the same request -/
 
